@@ -331,7 +331,14 @@ fn spec_pawn_move(p: &[u64; 16], turn: Color, ep: Option<Square>, mv: &Move) -> 
     (df == 1 || df == -1) && dr == f && victim != 0 && mv.capture().map_or(0, kind_u8) == victim && !mv.is_double_pawn()
 }
 
-fn pawn_obligation(max_pawns: u32, cap: usize) {
+/// which half of the contract a harness checks (split to keep each CBMC run small)
+#[derive(Clone, Copy, PartialEq, Eq)]
+enum Half {
+    Sound,
+    Complete,
+}
+
+fn pawn_obligation(max_pawns: u32, half: Half) {
     unsafe {
         SEEDS = kani::any();
     }
@@ -352,45 +359,68 @@ fn pawn_obligation(max_pawns: u32, cap: usize) {
     let helper = GameStateHelper { state: &state };
     let mut result: Vec<PseudoLegalMove> = Vec::with_capacity(32);
     MoveGenerator::compute_pawn_moves(helper, &mut result);
+    let cap = 12 * max_pawns as usize;
     assert!(result.len() <= cap);
-    // soundness + exact attributes
-    let i: usize = kani::any();
-    if i < result.len() {
-        let mv: Move = *result[i];
-        assert!(spec_pawn_move(&p, turn, ep, &mv));
-        let j: usize = kani::any();
-        if j < result.len() && j != i {
-            assert!(*result[j] != mv); // no duplicates
-        }
-    }
-    // completeness: any move value that the rules allow is in the list
-    let cand: Move = kani::any();
-    if spec_pawn_move(&p, turn, ep, &cand) {
-        let mut found = false;
-        let mut n = 0;
-        while n < cap {
-            if n < result.len() && *result[n] == cand {
-                found = true;
+    if half == Half::Sound {
+        // soundness + exact attributes + no duplicates
+        let i: usize = kani::any();
+        if i < result.len() {
+            let mv: Move = *result[i];
+            assert!(spec_pawn_move(&p, turn, ep, &mv));
+            let j: usize = kani::any();
+            if j < result.len() && j != i {
+                assert!(*result[j] != mv);
             }
-            n += 1;
         }
-        assert!(found);
+        kani::cover!(i < result.len() && result[i].is_en_passant(), "en passant reachable");
+        kani::cover!(i < result.len() && result[i].is_promotion() && result[i].is_capture(), "capture-promotion reachable");
+        kani::cover!(i < result.len() && result[i].is_double_pawn(), "double step reachable");
+    } else {
+        // completeness: any move value that the rules allow is in the list (scan written as nested short loops so that
+        // the global unwind bound can stay small)
+        let cand: Move = kani::any();
+        let wanted = spec_pawn_move(&p, turn, ep, &cand);
+        let mut found = false;
+        let mut a = 0;
+        while a < 3 * max_pawns as usize {
+            let mut b = 0;
+            while b < 4 {
+                let n = 4 * a + b;
+                if n < result.len() && *result[n] == cand {
+                    found = true;
+                }
+                b += 1;
+            }
+            a += 1;
+        }
+        assert!(!wanted || found);
+        kani::cover!(wanted && cand.is_en_passant(), "en passant candidate reachable");
+        kani::cover!(wanted && cand.is_promotion(), "promotion candidate reachable");
     }
-    kani::cover!(i < result.len() && result[i].is_en_passant(), "en passant reachable");
-    kani::cover!(i < result.len() && result[i].is_promotion() && result[i].is_capture(), "capture-promotion reachable");
-    kani::cover!(i < result.len() && result[i].is_double_pawn(), "double step reachable");
 }
 
 #[kani::proof]
-#[kani::unwind(14)]
-fn c01_k1_pawn_moves_1() {
-    pawn_obligation(1, 12)
+#[kani::unwind(8)]
+fn c01_k1_pawn_moves_sound_1() {
+    pawn_obligation(1, Half::Sound)
 }
 
 #[kani::proof]
-#[kani::unwind(26)]
-fn c01_k1_pawn_moves_2() {
-    pawn_obligation(2, 24)
+#[kani::unwind(8)]
+fn c01_k1_pawn_moves_complete_1() {
+    pawn_obligation(1, Half::Complete)
+}
+
+#[kani::proof]
+#[kani::unwind(10)]
+fn c01_k1_pawn_moves_sound_2() {
+    pawn_obligation(2, Half::Sound)
+}
+
+#[kani::proof]
+#[kani::unwind(10)]
+fn c01_k1_pawn_moves_complete_2() {
+    pawn_obligation(2, Half::Complete)
 }
 
 // =====================================================================================================================
@@ -398,7 +428,7 @@ fn c01_k1_pawn_moves_2() {
 // =====================================================================================================================
 
 #[kani::proof]
-#[kani::unwind(8)]
+#[kani::unwind(18)]
 #[kani::stub(crate::board::Board::colored_attacks, stub_colored_attacks)]
 fn c01_k4_try_as_legal_move() {
     let (p, state) = any_state(10);
@@ -415,7 +445,10 @@ fn c01_k4_try_as_legal_move() {
         Some(MoveResult(m, s)) => {
             assert!(king & attacked == 0);
             assert!(*m == mv);
-            assert!(boards_of(s.board()) == boards_of(next.board()) && s.turn_to_move() == next.turn_to_move());
+            let pi = PieceIndex(kani::any());
+            kani::assume(pi.0 < 16);
+            assert!(s.board().piece_occupancy(pi) == next.board().piece_occupancy(pi));
+            assert!(s.turn_to_move() == next.turn_to_move());
             assert!(s.en_passant_target() == next.en_passant_target());
             assert!(s.castle_rights(Color::White) == next.castle_rights(Color::White));
             assert!(s.castle_rights(Color::Black) == next.castle_rights(Color::Black));
@@ -477,7 +510,7 @@ fn c01_k5_legal_moves_is_filter() {
     p[6] = bit(4);
     p[14] = bit(60);
     let state = State::new(board_from(&p), any_color(), any_rights(), None, Clock { halfmove_clock: 0, fullmove_number: 1 });
-    let mut buffer = MoveGenerationBuffer::new();
+    let mut buffer = MoveGenerationBuffer { legal_moves: Vec::with_capacity(4), psuedo_legal_moves: Vec::with_capacity(4) };
     // stale content must not leak into the answer
     buffer.psuedo_legal_moves.push(PseudoLegalMove::new(raw_move(unsafe { PSEUDO[0] })));
     MoveGenerator::compute_legal_moves_into(&state, &mut buffer);
